@@ -92,15 +92,6 @@ Proof.
   repeat split; try assumption. rewrite lenN_app, Hl. reflexivity.
 Qed.
 
-(* the receiver's untouched fields are the constructor's *)
-Definition clean_receiver (r : pkt) : bool :=
-  match r with
-  | PConnect _ _ _ None | PConnectRes _ _ _ None | PCall _ _ _ None => true
-  | PConnect _ _ _ _ | PConnectRes _ _ _ _ | PCall _ _ _ _ => false
-  | PUserControl _ _ x => x =? 0
-  | _ => true
-  end.
-
 Lemma f_eq_one t : f_eq t f_one = true -> t = f_one.
 Proof.
   unfold f_eq. intros H. apply andb_true_iff in H. destruct H as [_ H].
@@ -108,7 +99,7 @@ Proof.
   apply andb_true_iff in H. destruct H as [_ H]. discriminate.
 Qed.
 
-Lemma um_objcall_wf data name tid o a : wf_bytes data -> um_objcall None data = Ok (name, tid, o, a) ->
+Lemma um_objcall_wf data name tid o a : wf_bytes data -> um_objcall data = Ok (name, tid, o, a) ->
   wf_strb name = true /\ tid < 18446744073709551616 /\ wf_propsb o = true /\ wf_oprops a = true /\
   hsize name + size (AObj o) + size_oprops a <= lenN data.
 Proof.
@@ -151,26 +142,23 @@ Proof. apply wf_bytes_cons. Qed.
 
 (* every successfully decoded packet: well-formed, same type as the receiver, Size() <= input *)
 Theorem unmarshal_decoded r data p :
-  clean_receiver r = true -> wf_bytes data -> unmarshal r data = Ok p ->
+  wf_bytes data -> unmarshal r data = Ok p ->
   wf_pkt p = true /\ kind_of p = kind_of r /\ psize p <= lenN data.
 Proof.
-  intros Hc Hd H. destruct r; cbn [unmarshal] in H; cbn [kind_of].
+  intros Hd H. destruct r; cbn [unmarshal] in H; cbn [kind_of].
   - (* connect *)
-    destruct args; [discriminate|].
     apply bind_ok_inv in H. destruct H as ([[[nm t] o] a] & Eo & H).
     destruct (um_objcall_wf _ _ _ _ _ Hd Eo) as (Hn & Ht & Ho & Ha & Hsz).
     destruct (bytes_eqb nm cConnect) eqn:En; cbn [negb] in H; [|discriminate].
     destruct (f_eq t f_one) eqn:Et; cbn [negb] in H; [|discriminate].
     inversion H; subst. apply f_eq_one in Et. subst t.
     cbn [wf_pkt kind_of psize]. rewrite En, Ho, Ha. repeat split; try reflexivity; exact Hsz.
-  - destruct args; [discriminate|].
-    apply bind_ok_inv in H. destruct H as ([[[nm t] o] a] & Eo & H).
+  -     apply bind_ok_inv in H. destruct H as ([[[nm t] o] a] & Eo & H).
     destruct (um_objcall_wf _ _ _ _ _ Hd Eo) as (Hn & Ht & Ho & Ha & Hsz).
     destruct (bytes_eqb nm cResult) eqn:En; cbn [negb] in H; [|discriminate].
     inversion H; subst. apply N.ltb_lt in Ht.
     cbn [wf_pkt kind_of psize]. unfold wf_f64. rewrite En, Ht, Ho, Ha. repeat split; try reflexivity; exact Hsz.
   - (* call *)
-    destruct args; [discriminate|].
     apply bind_ok_inv in H. destruct H as ([[[nm t] o] q] & Ev & H).
     destruct (after_variant_wf _ _ _ _ _ Hd Ev) as (Hn & Ht & Ho & Hq & Hlen & Hnone).
     apply N.ltb_lt in Ht.
@@ -251,7 +239,6 @@ Proof.
     repeat split; [apply andb_true_iff; split; apply N.ltb_lt; assumption|].
     rewrite !lenN_cons. change (gen_size (Gen_rtmp.rtmp_SetPeerBandwidth_Size tt)) with 5. lia.
   - (* user control *)
-    cbn [clean_receiver] in Hc. apply N.eqb_eq in Hc. subst x.
     destruct data as [|a [|b body]]; try discriminate.
     destruct (is_nil body) eqn:Eb; [discriminate|].
     destruct (lenN (a :: b :: body) <? uc_size (ube2 a b)) eqn:El; [discriminate|].
@@ -283,42 +270,28 @@ Proof.
       * inversion Ex. reflexivity.
 Qed.
 
-Lemma unmarshal_receiver_irrelevant r p data :
-  clean_receiver r = true -> kind_of p = kind_of r ->
-  unmarshal (receiver_for p) data = unmarshal r data.
+(* UnmarshalBinary overwrites: the result depends on the receiver's TYPE only, never on the value
+   it already holds (any earlier decode, any constructed packet) *)
+Theorem unmarshal_overwrites old old' data :
+  kind_of old = kind_of old' -> unmarshal old data = unmarshal old' data.
 Proof.
-  destruct r, p; cbn [kind_of]; intros Hc Hk; try discriminate; cbn [receiver_for clean_receiver] in *;
-    try reflexivity.
-  - destruct args; [discriminate|reflexivity].
-  - destruct args; [discriminate|reflexivity].
-  - destruct args; [discriminate|reflexivity].
-  - apply N.eqb_eq in Hc. subst. reflexivity.
+  destruct old, old'; cbn [kind_of]; intros Hk; try discriminate; reflexivity.
 Qed.
 
-(* ... and a fixed point: its bytes decode, on the constructor's receiver, to itself *)
+Lemma unmarshal_receiver_irrelevant r p data :
+  kind_of p = kind_of r -> unmarshal (receiver_for p) data = unmarshal r data.
+Proof.
+  intros Hk. apply unmarshal_overwrites. rewrite <- Hk. destruct p; reflexivity.
+Qed.
+
+(* ... and a fixed point: its bytes decode, on any receiver of its type, to itself *)
 Theorem unmarshal_fixed_point r data p :
-  clean_receiver r = true -> wf_bytes data -> unmarshal r data = Ok p ->
+  wf_bytes data -> unmarshal r data = Ok p ->
   unmarshal r (marshal p) = Ok p /\ psize p <= lenN data.
 Proof.
-  intros Hc Hd H. destruct (unmarshal_decoded r data p Hc Hd H) as (Hwf & Hk & Hsz).
-  split; [|exact Hsz]. rewrite <- (unmarshal_receiver_irrelevant r p _ Hc Hk).
+  intros Hd H. destruct (unmarshal_decoded r data p Hd H) as (Hwf & Hk & Hsz).
+  split; [|exact Hsz]. rewrite <- (unmarshal_receiver_irrelevant r p _ Hk).
   exact (unmarshal_marshal p Hwf).
-Qed.
-
-Lemma parse_receiver_clean t p r t' : parse_amf_object t p = (Ok r, t') -> clean_receiver r = true.
-Proof.
-  unfold parse_amf_object.
-  destruct (step (um_string p) 3) as [[v n]|e|s]; try discriminate.
-  destruct (bytes_eqb (amf_str v) cResult || bytes_eqb (amf_str v) cError).
-  - destruct (drop n p 38) as [p1|e|s]; try discriminate.
-    destruct (step (um_number p1) 4) as [[tv n2]|e|s]; try discriminate.
-    destruct (tx_get t (amf_num tv)); [|discriminate].
-    destruct (bytes_eqb b cConnect); [intros H; inversion H; reflexivity|].
-    destruct (bytes_eqb b cCreateStream); [intros H; inversion H; reflexivity|discriminate].
-  - destruct (bytes_eqb (amf_str v) cConnect); [intros H; inversion H; reflexivity|].
-    destruct (bytes_eqb (amf_str v) cCreateStream); [intros H; inversion H; reflexivity|].
-    destruct (bytes_eqb (amf_str v) cPlay); [intros H; inversion H; reflexivity|].
-    destruct (bytes_eqb (amf_str v) cPublish); intros H; inversion H; reflexivity.
 Qed.
 
 (* whatever DecodeMessage returns is a well-formed packet that re-marshals to no more than the
@@ -334,15 +307,43 @@ Proof.
     apply wf_bytes_inv in Hp. tauto. }
   assert (Hlen : lenN q <= lenN (x :: tl)).
   { unfold q. destruct ((mt =? mtAMF3Command) || (mt =? mtAMF3Data)); rewrite ?lenN_cons; lia. }
-  assert (Hfin : forall r, clean_receiver r = true -> unmarshal r q = Ok p ->
+  assert (Hfin : forall r, unmarshal r q = Ok p ->
             wf_pkt p = true /\ psize p <= lenN (x :: tl) /\ unmarshal (receiver_for p) (marshal p) = Ok p).
-  { intros r Hc Hu. destruct (unmarshal_decoded r q p Hc Hq Hu) as (Hwf & Hk & Hsz).
+  { intros r Hu. destruct (unmarshal_decoded r q p Hq Hu) as (Hwf & Hk & Hsz).
     repeat split; [exact Hwf|lia|exact (unmarshal_marshal p Hwf)]. }
-  destruct (mt =? mtSetChunkSize); [injection H as H1 H2; apply (Hfin new_set_chunk_size); [reflexivity|exact H1]|].
-  destruct (mt =? mtWinAck); [injection H as H1 H2; apply (Hfin new_win_ack); [reflexivity|exact H1]|].
-  destruct (mt =? mtSetPeerBw); [injection H as H1 H2; apply (Hfin new_set_peer_bw); [reflexivity|exact H1]|].
+  destruct (mt =? mtSetChunkSize); [injection H as H1 H2; apply (Hfin new_set_chunk_size); exact H1|].
+  destruct (mt =? mtWinAck); [injection H as H1 H2; apply (Hfin new_win_ack); exact H1|].
+  destruct (mt =? mtSetPeerBw); [injection H as H1 H2; apply (Hfin new_set_peer_bw); exact H1|].
   destruct (is_amf_type mt).
   - destruct (parse_amf_object t q) as [[r|e|s] t1] eqn:Ep; try discriminate.
-    injection H as H1 H2. apply (Hfin r); [exact (parse_receiver_clean _ _ _ _ Ep)|exact H1].
-  - destruct (mt =? mtUserControl); [|discriminate]. injection H as H1 H2. apply (Hfin new_user_control); [reflexivity|exact H1].
+    injection H as H1 H2. apply (Hfin r); exact H1.
+  - destruct (mt =? mtUserControl); [|discriminate]. injection H as H1 H2. apply (Hfin new_user_control); exact H1.
+Qed.
+
+(* k payloads in sequence into ONE packet object (the caller stops at the first failure): every
+   step yields what a fresh packet of that type yields for the same bytes *)
+Fixpoint decode_seq (r : pkt) (ds : list bytes) : list (res pkt) :=
+  match ds with
+  | [] => []
+  | d :: t => match unmarshal_into r d with
+              | Ok p => Ok p :: decode_seq p t
+              | other => [other]
+              end
+  end.
+
+Fixpoint until_fail (l : list (res pkt)) : list (res pkt) :=
+  match l with
+  | [] => []
+  | Ok p :: t => Ok p :: until_fail t
+  | other :: _ => [other]
+  end.
+
+Theorem reuse_is_fresh r0 ds : Forall wf_bytes ds ->
+  forall r, kind_of r = kind_of r0 -> decode_seq r ds = until_fail (map (unmarshal r0) ds).
+Proof.
+  induction 1 as [|d ds Hd Hds IH]; intros r Hk; [reflexivity|].
+  cbn [decode_seq map until_fail]. unfold unmarshal_into.
+  rewrite (unmarshal_overwrites r r0 d Hk).
+  destruct (unmarshal r0 d) as [p|e|s] eqn:E; try reflexivity.
+  f_equal. apply IH. destruct (unmarshal_decoded r0 d p Hd E) as (_ & Hkp & _). exact Hkp.
 Qed.
